@@ -6,15 +6,21 @@ package conc
 import (
 	"fmt"
 	"os"
+	"os/exec"
 	"path/filepath"
 	"strings"
 
 	"github.com/cosmos72/gomacro/fast"
 
 	"verif/harness/gobatch"
+	"verif/harness/vlib"
 )
 
 var raceSeen = map[string]int64{}
+
+// Quiet is set while replays run: a replay reports through its returned error (which the
+// caller classifies as known finding, regression or --replay result), not directly.
+var Quiet bool
 
 // raceReports returns the text the race detector appended to its log files since the
 // last call (GORACE=log_path=<shard_dir>/race is set by the driver from check.json).
@@ -40,7 +46,10 @@ func raceReports() string {
 
 // Run is a gobatch.Config.Interp: the interpreter run plus hook and race oracles.
 // Repeats > 1 re-runs the program and requires identical results (schedule perturbation).
-func Run(repeats int, perturb uint64) func(p gobatch.Program) gobatch.Result {
+//
+// A race report makes the testing package fail the test as soon as rapid looks at it, before
+// gobatch compares anything, so violations seen here are recorded at once through rec.
+func Run(rec *vlib.Rec, repeats int, perturb uint64) func(p gobatch.Program) gobatch.Result {
 	return func(p gobatch.Program) gobatch.Result {
 		var first gobatch.Result
 		for i := 0; i < repeats; i++ {
@@ -55,6 +64,9 @@ func Run(repeats int, perturb uint64) func(p gobatch.Program) gobatch.Result {
 			c := fast.VerifStats()
 			if c.OwnerViolations != 0 || c.ConcurrentEntries != 0 {
 				r.Err = fmt.Sprintf("ownership hooks: %d owner violations, %d concurrent entries into one runtime record; events %+v", c.OwnerViolations, c.ConcurrentEntries, fast.VerifEvents())
+				if !Quiet {
+					rec.Violation("ownership-hooks", p.Replay(), "go", "%s", r.Err)
+				}
 				return r
 			}
 			if rep := raceReports(); rep != "" {
@@ -63,6 +75,9 @@ func Run(repeats int, perturb uint64) func(p gobatch.Program) gobatch.Result {
 						rep = rep[:3000]
 					}
 					r.Err = "race detector report with gomacro frames:\n" + rep
+					if !Quiet {
+						rec.Violation("race-report", p.Replay(), "go", "%s", r.Err)
+					}
 					return r
 				}
 			}
@@ -74,5 +89,79 @@ func Run(repeats int, perturb uint64) func(p gobatch.Program) gobatch.Result {
 			}
 		}
 		return first
+	}
+}
+
+// ---- replays in a child process
+//
+// A race report makes the testing package fail the whole test process. A replay that is
+// EXPECTED to race (known finding) must therefore not run inside the shard's process: it
+// runs in a child (the same test binary, re-executed), and the parent reads the verdict.
+
+const childEnv = "VERIF_CONC_REPLAY_CHILD"
+
+// IsReplayChild reports whether this process was started by SubprocessReplayer.
+func IsReplayChild() bool { return os.Getenv(childEnv) != "" }
+
+// ReplayChild is the child's whole job: replay one file, print the verdict, exit.
+func ReplayChild(rec *vlib.Rec, cfg gobatch.Config) {
+	Quiet = true
+	data, err := os.ReadFile(os.Getenv(childEnv))
+	if err != nil {
+		fmt.Println("CONC-REPLAY-RESULT: inconclusive", err)
+		os.Exit(0)
+	}
+	verdict := "ok"
+	func() {
+		defer func() {
+			if p := recover(); p != nil {
+				verdict = fmt.Sprintf("error panic: %v", p)
+			}
+		}()
+		if e := gobatch.ReplayerWith(cfg)(data); e != nil {
+			if _, inc := e.(vlib.InconclusiveError); inc {
+				verdict = "inconclusive " + e.Error()
+			} else {
+				verdict = "error " + strings.ReplaceAll(e.Error(), "\n", "\\n")
+			}
+		}
+	}()
+	fmt.Println("CONC-REPLAY-RESULT: " + verdict)
+	os.Exit(0)
+}
+
+// SubprocessReplayer replays each input in a child process under the race detector.
+func SubprocessReplayer() vlib.Replayer {
+	return func(content []byte) error {
+		dir, err := os.MkdirTemp(os.Getenv("VERIF_SCRATCH"), "replay-child-")
+		if err != nil {
+			return vlib.Inconclusive(err.Error())
+		}
+		defer os.RemoveAll(dir)
+		file := filepath.Join(dir, "input")
+		os.WriteFile(file, content, 0o644)
+		cmd := exec.Command(os.Args[0], "-test.run", "^$")
+		cmd.Dir = dir
+		cmd.Env = append(os.Environ(), childEnv+"="+file, "VERIF_SCRATCH="+dir, "VERIF_OUT="+dir,
+			"GORACE=log_path="+filepath.Join(dir, "race")+" halt_on_error=0", "VERIF_REPLAY=")
+		out, _ := cmd.CombinedOutput() // the exit status is 66 after a race report: not the verdict
+		for _, line := range strings.Split(string(out), "\n") {
+			if strings.HasPrefix(line, "CONC-REPLAY-RESULT: ") {
+				v := strings.TrimPrefix(line, "CONC-REPLAY-RESULT: ")
+				switch {
+				case v == "ok":
+					return nil
+				case strings.HasPrefix(v, "error "):
+					return fmt.Errorf("%s", strings.ReplaceAll(strings.TrimPrefix(v, "error "), "\\n", "\n"))
+				default:
+					return vlib.Inconclusive("replay child: " + v)
+				}
+			}
+		}
+		tail := string(out)
+		if len(tail) > 1500 {
+			tail = tail[len(tail)-1500:]
+		}
+		return vlib.Inconclusive("replay child gave no verdict:\n" + tail)
 	}
 }
